@@ -10,6 +10,8 @@ import Lattigo.Model.Shamir
         → `err` | the t coefficient polynomials joined by `|`
     share <nq> <ms:v> <x> <t> <c_0:M> … <c_{t-1}:M>
         → GenShamirSecretShare at point x : `panic` | M
+    share_into <nq> <ms:v> <x> <t> <recv:M> <c_0:M> … <c_{t-1}:M>
+        → GenShamirSecretShare at point x into a receiver whose previous content is recv : `panic` | M
     agg <nq> <ms:v> <nq1> <s1:M> <nq2> <s2:M> <nqo> <out:M>
         → AggregateShares : `err` | M
     aggall <nq> <ms:v> <N> <n> <s_1:M> … <s_n:M>
@@ -61,6 +63,15 @@ def handleOpt (toks : List String) : Option String :=
       let cs ← parseMats? rest
       if cs.length ≠ t then none
       some (showOutcome (genShamirSecretShare ⟨nq, ms⟩ x (cs.map fun m => ⟨nq, m⟩)))
+  | "share_into" :: nq :: ms :: x :: t :: recv :: rest => do
+      let nq ← nq.toNat?
+      let ms ← parseVec? ms
+      let x ← x.toNat?
+      let t ← t.toNat?
+      let recv ← parseMat? recv
+      let cs ← parseMats? rest
+      if cs.length ≠ t then none
+      some (showOutcome (genShamirSecretShareInto ⟨nq, ms⟩ x (cs.map fun m => ⟨nq, m⟩) ⟨nq, recv⟩))
   | ["agg", nq, ms, nq1, s1, nq2, s2, nqo, out] => do
       let r : RingQP := ⟨← nq.toNat?, ← parseVec? ms⟩
       let a : QP := ⟨← nq1.toNat?, ← parseMat? s1⟩
